@@ -235,7 +235,7 @@ def typed_header_value(t):
     return t
 
 
-def doc_to_arrays(doc):
+def doc_to_arrays(doc, unicode_strings=False):
     """Concretise a spec document: one numpy record array per struct (+ enums dict, header dict, names)."""
     from collections import OrderedDict
     enum_defs = {text(e['name']): [text(l) for l in e['labels']] for e in doc['enums']}
@@ -250,9 +250,9 @@ def doc_to_arrays(doc):
             elif base in FLT_BASES:
                 b = FLT_BASES[base]
             elif base == 'char':
-                b = 'S%d' % max(c['clen'], 1)
+                b = '%s%d' % ('U' if unicode_strings else 'S', max(c['clen'], 1))
             else:
-                b = 'S%d' % max(len(l) for l in enum_defs[base])
+                b = '%s%d' % ('U' if unicode_strings else 'S', max(len(l) for l in enum_defs[base]))
                 enums[cn] = (base, tuple(enum_defs[base]))
             dt.append((cn, b, (c['alen'],)) if c['alen'] > 0 else (cn, b))
         rows = [r['cells'] for r in doc['rows'] if r['t'] == si + 1]
@@ -262,7 +262,8 @@ def doc_to_arrays(doc):
                 base = text(c['base'])
                 cn = text(c['name'])
                 conv = (lambda x: int(text(x))) if base in INT_BASES else \
-                    (lambda x: float(text(x))) if base in FLT_BASES else (lambda x: text(x).encode('ascii'))
+                    (lambda x: float(text(x))) if base in FLT_BASES else \
+                    ((lambda x: text(x)) if unicode_strings else (lambda x: text(x).encode('ascii')))
                 if c['alen'] > 0:
                     arr[cn][ri] = [conv(x) for x in cells[ci]]
                 else:
